@@ -1,5 +1,6 @@
 """C11 -- the resource tracker's reference counts are exact."""
 from ..rules import tracker as T
+from ..rules import process as Pr
 
 EXPLANATION = (
     "Static analysis. The tracker loop is a small state machine whose transition function is visible in the code: the "
@@ -11,7 +12,10 @@ EXPLANATION = (
     "finally, visits every type once and folders last, each name in its own try (R-RT-LOOP). name = ':'-join of the middle "
     "fields; every command literal sent by loky's and the stdlib's clients (read from the stdlib AST) is dispatched; every "
     "resource type used in loky has a cleanup function (R-RT-PROTO). The abstract interpreter evaluates the dispatch AST "
-    "over an abstract domain; it does not run loky. Not decided: OS unlink semantics."
+    "over an abstract domain; it does not run loky. The EOF test looks at the unmodified readline() result (a blank line "
+    "is malformed input, not EOF). loky stays vendorable: its own modules are imported relatively and the child "
+    "interpreters (worker `-m`, tracker `-c`) are given the module name of this copy, never a literal (R-VENDOR). "
+    "Not decided: OS unlink semantics."
 )
 
 
@@ -21,4 +25,5 @@ def run(e, R, tier):
         T.r_rt_loop,
         T.r_rt_sweep,
         T.r_rt_proto,
+        Pr.r_vendor,
     ])
